@@ -114,7 +114,9 @@ import specs.datatypes  # noqa: F401,E402
 import specs.vault  # noqa: F401,E402  (the vault-level hooks of the same functions)
 from pyvc.spec import REGISTRY  # noqa: E402
 
-N_REP = z3.Int("attr.n")
+AV_REP = z3.String("attr.text")            # the attribute text: a canonical decimal ...
+N_REP = z3.StrToInt(AV_REP)                 # ... whose value is N_REP
+CANON = z3.Concat(z3.Range("1", "9"), z3.Star(z3.Range("0", "9")))
 
 
 def _set_rep_post(attr):
@@ -148,9 +150,9 @@ for _cls, _attr in REP.items():
     g = REGISTRY[_cls + ".repeated"]
     g.trusted = False
     g.sigs = [dict(self=_elem(_cls, attrs={_lx(_attr): ABSENT})),
-              dict(self=_elem(_cls, attrs={_lx(_attr): z3.IntToStr(N_REP)}))]
+              dict(self=_elem(_cls, attrs={_lx(_attr): AV_REP}))]
     g.sig = g.sigs[0]
-    g.requires = lambda a: N_REP >= 2
+    g.requires = lambda a: z3.And(z3.InRe(AV_REP, CANON), N_REP >= 2)
     g.ensures = [Clause("attr", {"C07"}, _get_rep_post(_attr))]
     g.props |= {"C07"}
     g.inline = {"odfdo.element:Element.get_attribute"}
@@ -178,16 +180,16 @@ contract(
 
 contract(
     SP + ".length",
-    sig=[dict(self=_elem(SP, attrs={_lx("text:c"): ABSENT})), dict(self=_elem(SP, attrs={_lx("text:c"): z3.IntToStr(N_REP)}))],
-    requires=lambda a: N_REP >= 2,
+    sig=[dict(self=_elem(SP, attrs={_lx("text:c"): ABSENT})), dict(self=_elem(SP, attrs={_lx("text:c"): AV_REP}))],
+    requires=lambda a: z3.And(z3.InRe(AV_REP, CANON), N_REP >= 2),
     ensures=[Clause("length", {"C05"}, lambda a, r, p: S.eq(r, 1) if a.self.value("text:c") is ABSENT else S.eq(r, N_REP))],
     result=Int,
 )
 
 contract(
     SP + ".text",
-    sig=[dict(self=_elem(SP, attrs={_lx("text:c"): ABSENT})), dict(self=_elem(SP, attrs={_lx("text:c"): z3.IntToStr(N_REP)}))],
-    requires=lambda a: N_REP >= 2,
+    sig=[dict(self=_elem(SP, attrs={_lx("text:c"): ABSENT})), dict(self=_elem(SP, attrs={_lx("text:c"): AV_REP}))],
+    requires=lambda a: z3.And(z3.InRe(AV_REP, CANON), N_REP >= 2),
     inline={SP + ".length"},
     ensures=[Clause("spaces", {"C05"}, lambda a, r, p: S.And(
         S.len(r) == (1 if a.self.value("text:c") is ABSENT else N_REP),
